@@ -36,12 +36,31 @@ pub fn prop() -> Prop {
     }
 }
 
-crate::jser_struct! {
-    pub struct FormCase {
-        pub ch: Vec<u16>,
-        pub strs: Vec<String>,
-        pub style: Vec<u16>,
-        pub plain: bool,
+/// the path is a pure function of these choices; `to_j` also writes the rendered text
+#[derive(Clone, Debug)]
+pub struct FormCase {
+    pub ch: Vec<u16>,
+    pub strs: Vec<String>,
+    pub style: Vec<u16>,
+    pub plain: bool,
+}
+impl crate::jser::Jser for FormCase {
+    fn to_j(&self) -> serde_json::Value {
+        let ast = random_path_ast(&self.ch, &self.strs);
+        let text = print(&ast, &mut Style::new(&self.style, self.plain));
+        serde_json::json!({
+            "text": text,
+            "intended": format!("{ast:?}"),
+            "ch": self.ch.to_j(), "strs": self.strs.to_j(), "style": self.style.to_j(), "plain": self.plain,
+        })
+    }
+    fn from_j(j: &serde_json::Value) -> Result<Self, String> {
+        Ok(FormCase {
+            ch: Vec::<u16>::from_j(j.get("ch").ok_or("ch")?)?,
+            strs: Vec::<String>::from_j(j.get("strs").ok_or("strs")?)?,
+            style: Vec::<u16>::from_j(j.get("style").ok_or("style")?)?,
+            plain: bool::from_j(j.get("plain").ok_or("plain")?)?,
+        })
     }
 }
 
